@@ -401,7 +401,7 @@ class World:
             is_cb_like = len(ins) >= 1 and ins[0]["kind"] == "cbdata" and ins[0]["ref"]["tx"] == -1
             if pos == 0 and (is_cb_like or mut in ("cb_blank", "cb_realref", "cb_bigdata")) or (mut == "two_rewards" and pos == 1):
                 i0 = ins[0]
-                data = (b"b%d.%d" % (d["id"], td["id"])) + self.tag
+                data = td.get("_data") if td.get("_data") is not None else (b"b%d.%d" % (d["id"], td["id"])) + self.tag
                 if not i0["small"]:
                     data = data + b"x" * (201 - len(data))
                 ref = None
